@@ -24,13 +24,41 @@ arrays bitwise.  Tolerances are running noise floors: every model quantity carri
 ``K * eps_t * (sum of |terms|)`` that is propagated through the same recurrences (including the
 conditioning of the delta weights w.r.t. the rounding of (x_grid - X)/dx).
 
-Self-test (tools/mut.sh, quick tier, seed 0; file = sopht/numeric/immersed_boundary_ops/
-VirtualBoundaryForcing.py unless noted) — see MUTATIONS at the end of this docstring; filled in from
-actual runs.
+Soundness notes (measured on the unchanged tree, seeds 0..5 quick + 0,1 thorough, both precisions): every
+err/tol ratio stays <= 0.07 (headroom >= 14x).  Three things had to be modelled to get there, none of them a
+defect: (1) PyElastica stores element lengths as |dx| + 1e-14, so the rod grids report s_max 3e-13 (relative)
+above the geometric value - the model checks the reported value against the geometry (abs. allowance 2e-13)
+and then uses the reported one; (2) spreading performs one rounding per marker whose 4^d stencil covers a
+cell, relative to the CURRENT cell content, so the floor of the Eulerian field is eps*(K + 2*count)*(|f| +
+sum|contrib|), not K*eps*|result|; (3) when ``dt`` is passed as ``np.float32`` NumPy-2 promotion turns the
+forcing clock ``time`` into a float32 for the rest of the run, so the clock is compared at working precision.
 
-MUTATIONS
----------
-(filled in below after validation)
+Self-test (tools/mut.sh --sed, quick tier, seed 0; VBF = sopht/numeric/immersed_boundary_ops/
+VirtualBoundaryForcing.py, IBFI = sopht/simulator/immersed_body/immersed_body_flow_interaction.py,
+RG = sopht/simulator/immersed_body/rigid_body/rigid_body_forcing_grids.py).  21 mutations, 21 caught:
+
+  #    mutation                                                               verdict    mechanism
+  M1   VBF  evaluation also advances the integral (I += 1e-3 e before step 5) VIOLATION  marker-force!=model (5e12 tol)
+  M2   VBF  time_step: dt*dt*e                                                VIOLATION  integral!=model (9e13)
+  M3   VBF  time_step: dt ignored (0.01*e)                                    VIOLATION  integral!=model (6e17)
+  M4   VBF  damping multiplies the integral instead of the mismatch           VIOLATION  marker-force!=model (1e14)
+  M5   IBFI both coefficients * s_max**d instead of **(d-1)                   VIOLATION  marker-force!=model (1e14)
+  M5b  IBFI only the damping coefficient * s_max**d                           VIOLATION  marker-force!=model (1e14)
+  M6   VBF  reset variant selected in accumulate mode (if True)               VIOLATION  eul-forcing!=model (6e12)
+  M7   VBF  accumulate variant selected in reset mode (if False)              VIOLATION  eul-forcing!=model
+  M8   IBFI view left writeable AND __call__ spreads into the velocity field  VIOLATION  velocity-view-writeable (at construction)
+  M8b  IBFI view left writeable, nothing written                              VIOLATION  velocity-view-writeable
+  M8c  IBFI __call__ spreads into the read-only velocity view                 VIOLATION  call-raises (numba refuses the read-only array)
+  M8d  IBFI __call__ spreads into ``.base`` of the view (flag intact)         VIOLATION  flow-velocity-modified (bitwise snapshot)
+  M9   VBF  time not advanced                                                 VIOLATION  time!=start+sum(dt)
+  M10  VBF  integral zeroed on every evaluation                               VIOLATION  marker-force!=model (1e11) / integral!=model
+  M11  VBF  mismatch sign (body - flow)                                       VIOLATION  marker-force!=model (3e14)
+  M12  VBF  time = dt instead of += dt                                        VIOLATION  time!=start+sum(dt)
+  M13  IBFI marker positions not refreshed before an evaluation               VIOLATION  evaluation-uses-stale-markers
+  M14  IBFI compute_flow_forces_and_torques runs the full __call__            VIOLATION  eul-forcing-touched-by-lag-only-evaluation
+  M15  IBFI stiffness not rescaled by s_max**(d-1)                            VIOLATION  marker-force!=model (5e12)
+  M16  RG   cylinder marker spacing from the diameter                         VIOLATION  s_max!=max-marker-spacing
+  M17  VBF  Euler step with dt/2                                              VIOLATION  integral!=model (5e13)
 """
 import numpy as np
 
